@@ -16,6 +16,14 @@ static LARGEST: AtomicUsize = AtomicUsize::new(0);
 static COUNT: AtomicUsize = AtomicUsize::new(0);
 static REFUSE_ABOVE: AtomicUsize = AtomicUsize::new(usize::MAX);
 static REFUSED: AtomicUsize = AtomicUsize::new(0);
+/// While set, memory handed out without zeroing is filled with `POISON_BYTE` (so that a buffer
+/// that is extended without being initialised shows recognisable garbage).
+static POISON: std::sync::atomic::AtomicBool = std::sync::atomic::AtomicBool::new(false);
+pub const POISON_BYTE: u8 = 0xA5;
+
+pub fn set_poison(on: bool) {
+    POISON.store(on, Relaxed);
+}
 
 #[inline]
 fn on_alloc(size: usize) {
@@ -38,6 +46,9 @@ unsafe impl GlobalAlloc for CountingAlloc {
         let p = System.alloc(layout);
         if !p.is_null() {
             on_alloc(layout.size());
+            if POISON.load(Relaxed) {
+                std::ptr::write_bytes(p, POISON_BYTE, layout.size());
+            }
         }
         p
     }
@@ -67,6 +78,9 @@ unsafe impl GlobalAlloc for CountingAlloc {
             // real allocator would.
             on_alloc(new_size);
             LIVE.fetch_sub(layout.size(), Relaxed);
+            if new_size > layout.size() && POISON.load(Relaxed) {
+                std::ptr::write_bytes(p.add(layout.size()), POISON_BYTE, new_size - layout.size());
+            }
         }
         p
     }
